@@ -29,7 +29,78 @@ func scaleCases(tier string) []scalekit.Case {
 			out = append(out, scalekit.Case{Shape: "late-module", N: n, V: v})
 		}
 	}
+	// depth crossed with composition: a chain of n nested containers (config false at level n/2) that is
+	// written in module g - in a grouping that module u uses (variant 0), in an augment of u's tree
+	// (1), in a grouping that g's submodule defines and u's submodule uses (2), in u itself (3)
+	for _, n := range scale.Sizes(100, 300) {
+		for v := 0; v < 4; v++ {
+			if n <= 100 && n%4 != v && n != 64 && n != 65 {
+				continue
+			}
+			out = append(out, scalekit.Case{Shape: "deep-composition", N: n, V: v})
+		}
+	}
 	return out
+}
+
+// deep-composition: every level of the chain, down to the leaf at its end, belongs to the module
+// whose text placed it (u for a used grouping, g for an augment) and is read-only from level n/2 on.
+func checkDeep(cs scalekit.Case) scalekit.Verdict {
+	var chain strings.Builder
+	for i := 1; i <= cs.N; i++ {
+		fmt.Fprintf(&chain, "container c%d { ", i)
+		if i == (cs.N+1)/2 {
+			chain.WriteString("config false; ")
+		}
+	}
+	chain.WriteString("leaf end { type string; } ")
+	chain.WriteString(strings.Repeat("} ", cs.N))
+	var files []dump.File
+	want := "u"
+	switch cs.V {
+	case 0:
+		files = []dump.File{{Name: "g.yang", Text: `module g { namespace "urn:g"; prefix g; grouping deep { ` + chain.String() + `} }`},
+			{Name: "u.yang", Text: `module u { namespace "urn:u"; prefix u; import g { prefix g; } container top { uses g:deep; } }`}}
+	case 1:
+		want = "g"
+		files = []dump.File{{Name: "u.yang", Text: `module u { namespace "urn:u"; prefix u; container top { leaf own { type string; } } }`},
+			{Name: "g.yang", Text: `module g { namespace "urn:g"; prefix g; import u { prefix u; } augment /u:top { ` + chain.String() + `} }`}}
+	case 2:
+		files = []dump.File{{Name: "g.yang", Text: `module g { namespace "urn:g"; prefix g; include gs; }`},
+			{Name: "gs.yang", Text: `submodule gs { belongs-to g { prefix g; } grouping deep { ` + chain.String() + `} }`},
+			{Name: "u.yang", Text: `module u { namespace "urn:u"; prefix u; include us; }`},
+			{Name: "us.yang", Text: `submodule us { belongs-to u { prefix u; } import g { prefix g; } container top { uses g:deep; } }`}}
+	case 3:
+		files = []dump.File{{Name: "u.yang", Text: `module u { namespace "urn:u"; prefix u; container top { ` + chain.String() + `} }`}}
+	}
+	for _, rev := range []bool{false, true} {
+		ms, errs, lerr := scalekit.Load(files, rev)
+		if lerr != nil || len(errs) > 0 {
+			return scalekit.Bad("spurious-errors", "loads and processes", fmt.Sprint(lerr, dump.Errors(errs)))
+		}
+		e := yang.ToEntry(ms.Modules["u"]).Dir["top"]
+		for i := 1; i <= cs.N+1; i++ {
+			name := fmt.Sprintf("c%d", i)
+			if i == cs.N+1 {
+				name = "end"
+			}
+			if e = e.Dir[name]; e == nil {
+				return scalekit.Bad("level-missing", name, "nil")
+			}
+			ns, im := "", ""
+			if v := e.Namespace(); v != nil {
+				ns = v.Name
+			}
+			im, _ = e.InstantiatingModule()
+			if ns != "urn:"+want || im != want {
+				return scalekit.Bad("namespace-differs-at-depth", fmt.Sprintf("level %d of %d: urn:%s / %s", i, cs.N, want, want), fmt.Sprintf("%s / %s", ns, im))
+			}
+			if ro := e.ReadOnly(); ro != (i >= (cs.N+1)/2) {
+				return scalekit.Bad("read-only-differs-at-depth", fmt.Sprintf("level %d of %d: read-only %v", i, cs.N, i >= (cs.N+1)/2), fmt.Sprint(ro))
+			}
+		}
+	}
+	return scalekit.OK()
 }
 
 // late-module: n filler modules (with revisions when the variant is odd) and a base module are
@@ -109,6 +180,9 @@ func checkLateModule(cs scalekit.Case) scalekit.Verdict {
 func checkScale(cs scalekit.Case) scalekit.Verdict {
 	if cs.Shape == "late-module" {
 		return checkLateModule(cs)
+	}
+	if cs.Shape == "deep-composition" {
+		return checkDeep(cs)
 	}
 	for _, rev := range []bool{false, true} {
 		ms, errs, lerr := scalekit.Load(scale.Wide(cs.N), rev)
